@@ -61,17 +61,42 @@ func ringIndexOK(ia *ssa.IndexAddr) (bool, string) {
 	if !ok || flow.FieldName(lfa.X.Type(), lfa.Field) != "entries" || !flow.SameValue(lfa.X, sfa.X) {
 		return false, "the length is taken from another slice than the one that is indexed"
 	}
-	add, ok := rem.X.(*ssa.BinOp)
-	if !ok || add.Op != token.ADD {
-		return false, "index base is not head + k"
-	}
-	isHead := func(v ssa.Value) bool {
+	isField := func(v ssa.Value, name string) bool {
 		l, ok := v.(*ssa.UnOp)
 		if !ok {
 			return false
 		}
 		fa, ok := l.X.(*ssa.FieldAddr)
-		return ok && flow.FieldName(fa.X.Type(), fa.Field) == "head" && flow.SameValue(fa.X, sfa.X)
+		return ok && flow.FieldName(fa.X.Type(), fa.Field) == name && flow.SameValue(fa.X, sfa.X)
+	}
+	isHead := func(v ssa.Value) bool { return isField(v, "head") }
+	add, ok := rem.X.(*ssa.BinOp)
+	if ok && add.Op == token.SUB {
+		// the tail slot: (head + size - 1) % len, under a test that gives size >= 1 (Go's % keeps the sign, so the
+		// index must not go below zero)
+		inner, isAdd := add.X.(*ssa.BinOp)
+		one, isOne := flow.ConstInt(add.Y)
+		if isAdd && inner.Op == token.ADD && isOne && one == 1 && (isHead(inner.X) && isField(inner.Y, "size") || isHead(inner.Y) && isField(inner.X, "size")) {
+			for _, g := range flow.NormGuards(flow.Guards(ia.Block())) {
+				bo, isB := g.Cond.(*ssa.BinOp)
+				if !isB || !isField(bo.X, "size") {
+					continue
+				}
+				k, isK := flow.ConstInt(bo.Y)
+				if !isK {
+					continue
+				}
+				if g.Side && (bo.Op == token.GTR && k >= 0 || bo.Op == token.GEQ && k >= 1 || bo.Op == token.NEQ && k == 0) || !g.Side && (bo.Op == token.EQL && k == 0 || bo.Op == token.LEQ && k >= 0 || bo.Op == token.LSS && k >= 1) {
+					add, ok = inner, true
+				}
+			}
+			if add != inner {
+				return false, "the tail index head + size - 1 is not guarded by a test that gives size >= 1: on an empty ring it is negative"
+			}
+		}
+	}
+	if !ok || add.Op != token.ADD {
+		return false, "index base is not head + k"
 	}
 	if !isHead(add.X) && !isHead(add.Y) {
 		return false, "index is not relative to head"
@@ -136,6 +161,8 @@ func c05(c *Ctx) (*report.Result, error) {
 	if g := resolve(c, res, "O5.4", anchor{"proxy", "*proxyIDRingBuffer", "AggregateUpTo"}); g != nil {
 		checkAggregateMax(c, res, g, "O5.4")
 	}
+	res.RuleDoc["O5.10"] = "every mapping handed to Append becomes a live entry: no return of Append is reachable without the store of the caller's (sourceShard, sourceTask) into a ring slot followed by size++ - the sender allocates one proxy id per Append, so an Append that stores nothing leaves that id without an entry and shifts every later one"
+	checkAppendAlwaysAppends(c, res, "O5.10")
 	res.RuleDoc["O5.9"] = "what is recorded is what will be translated back: every Append made by sendReplicationMessages pairs the allocated proxy id with the routed message's own source shard and original id (same analysis as O2.2) - an entry filed under another shard acknowledges that shard at an id from a foreign id space and leaves the real one unacknowledged"
 	if g := resolve(c, res, "O5.9", anchor{"proxy", "*proxyStreamSender", "sendReplicationMessages"}); g != nil {
 		tmp := newResult("C05")
